@@ -205,8 +205,8 @@ func genBSC(rng *rand.Rand, degenerate bool) (*bsctypes.ClientState, *bsctypes.C
 	sign := true
 	if degenerate {
 		for i, n := 0, nTwists(rng); i < n; i++ {
-			switch rng.Intn(30) {
-			case 0, 1:
+			switch rng.Intn(32) {
+			case 0, 1, 30, 31:
 				cs.Epoch = 0
 				tw = append(tw, "epoch-zero")
 			case 2:
